@@ -580,7 +580,10 @@ func (ex *Exec) applyContract(ctx *callCtx, fc *FuncContract, f *ssa.Function) [
 	}
 	bindResults(fc, res, rvars)
 	for _, c := range fc.Ensures {
-		st.assume(evalIn(st, old, c, rvars))
+		// a clause that mentions the callee's locals is internal to the callee: not assumed here
+		if t := ex.tryEvalClause(st, old, c, rvars, pkg); t != nil {
+			st.assume(t)
+		}
 	}
 	if fc.Trusted || f == nil || f.Blocks == nil {
 		ex.note("A-stub: assumed contract of " + short(ctx.key))
@@ -837,4 +840,27 @@ func (ex *Exec) freshenRefs(st *State, v *Val) *Val {
 		return &nv
 	}
 	return v
+}
+
+// tryEvalClause evaluates a callee clause at a call site; it returns nil when the
+// clause refers to names that exist only inside the callee (fewer facts assumed: sound).
+func (ex *Exec) tryEvalClause(cur, old *State, c *Clause, vars map[string]*Val, pkg *types.Package) (res *Term) {
+	defer func() {
+		if r := recover(); r != nil {
+			if se, ok := r.(specErr); ok {
+				if strings.HasPrefix(se.msg, "unknown identifier") {
+					res = nil
+					return
+				}
+				ex.fail("contract error at %s:%d (%s): %s", c.File, c.Line, c.Src, se.msg)
+			}
+			panic(r)
+		}
+	}()
+	env := &Env{ex: ex, cur: cur, old: old, vars: vars, pkg: pkg}
+	v := env.eval(c.E)
+	if v.K != VScalar || v.T.Sort != SBool {
+		ex.fail("contract clause at %s:%d is not boolean", c.File, c.Line)
+	}
+	return v.T
 }
